@@ -94,19 +94,29 @@ def durFromSeconds (b : Nat) : Option Int :=
 /-- number of binary digits -/
 def bitLen (n : Nat) : Nat := if n = 0 then 0 else Nat.log2 n + 1
 
-/-- a positive integer `n`, meaning `n * 2^-32`, as binary64 rounded to nearest, ties to even -/
-def natFixed32ToF64 (n : Nat) : Nat :=
+/-- a positive integer `n`, meaning `n * 2^-k` (`k ≤ 990`), as binary64 rounded to nearest, ties to even -/
+def natFixedToF64 (k n : Nat) : Nat :=
   if n = 0 then 0 else
   let l := bitLen n
   if l ≤ 53 then
-    -- exact: mantissa n * 2^(53-l), biased exponent l + 990
-    (l + 990) * P52 + (n * 2 ^ (53 - l) - P52)
+    -- exact: mantissa n * 2^(53-l), biased exponent l + 1022 - k
+    (l + 1022 - k) * P52 + (n * 2 ^ (53 - l) - P52)
   else
     let m := roundHalfEvenShift n (l - 53)
-    if m = P53 then (l + 991) * P52 else (l + 990) * P52 + (m - P52)
+    if m = P53 then (l + 1023 - k) * P52 else (l + 1022 - k) * P52 + (m - P52)
+
+def natFixed32ToF64 (n : Nat) : Nat := natFixedToF64 32 n
 
 /-- `I96F32 -> f64` (`az` / `lossy_into`) -/
 def fixed32ToF64 (x : Int) : Nat :=
   if x < 0 then natFixed32ToF64 x.natAbs + P63 else natFixed32ToF64 x.natAbs
+
+/-- `I48F16 -> f64` (`TimeInterval::to_nanos`) -/
+def fixed16ToF64 (x : Int) : Nat :=
+  if x < 0 then natFixedToF64 16 x.natAbs + P63 else natFixedToF64 16 x.natAbs
+
+/-- an integer as binary64 -/
+def intToF64 (x : Int) : Nat :=
+  if x < 0 then natFixedToF64 0 x.natAbs + P63 else natFixedToF64 0 x.natAbs
 
 end Statime
